@@ -3,8 +3,8 @@ package bounds
 import (
 	"go/constant"
 	"go/token"
-	"strings"
 	"go/types"
+	"strings"
 
 	"bngvet/internal/flow"
 	"bngvet/internal/lin"
@@ -51,12 +51,18 @@ func sameAddr(a, b ssa.Value) bool {
 		if !ok || !sameBase(x.X, y.X) {
 			return false
 		}
+		if x.Index == y.Index {
+			return true // the same SSA value (e.g. one loop index used twice: len(p[i].s) and p[i].s[k])
+		}
 		cx, ok1 := x.Index.(*ssa.Const)
 		cy, ok2 := y.Index.(*ssa.Const)
 		return ok1 && ok2 && cx.Int64() == cy.Int64()
 	}
 	return false
 }
+
+// canonHook lets sameBase see through loads: two loads of one location with no write in between are one value.
+var canonHook func(*ssa.UnOp) ssa.Value
 
 func sameBase(a, b ssa.Value) bool {
 	if a == b {
@@ -68,6 +74,16 @@ func sameBase(a, b ssa.Value) bool {
 	fb, ok2 := b.(*ssa.FieldAddr)
 	if ok1 && ok2 {
 		return fa.Field == fb.Field && sameBase(fa.X, fb.X)
+	}
+	ia, ok1 := a.(*ssa.IndexAddr)
+	ib, ok2 := b.(*ssa.IndexAddr)
+	if ok1 && ok2 {
+		return sameAddr(ia, ib)
+	}
+	la, ok1 := a.(*ssa.UnOp)
+	lb, ok2 := b.(*ssa.UnOp)
+	if ok1 && ok2 && la.Op == token.MUL && lb.Op == token.MUL && canonHook != nil {
+		return canonHook(la) == canonHook(lb)
 	}
 	return false
 }
@@ -266,6 +282,16 @@ func (e *Fn) canonLoad(ld *ssa.UnOp) ssa.Value {
 	if c, ok := e.canon[ld]; ok {
 		return c
 	}
+	if canonHook == nil {
+		prev := canonHook
+		canonHook = func(u *ssa.UnOp) ssa.Value {
+			if u.Parent() != e.F {
+				return u
+			}
+			return e.canonLoad(u)
+		}
+		defer func() { canonHook = prev }()
+	}
 	e.canon[ld] = ld // cycle guard
 	addr := ld.X
 	switch addr.(type) {
@@ -316,7 +342,10 @@ func (e *Fn) canonLoad(ld *ssa.UnOp) ssa.Value {
 	return bestVal
 }
 
-// writtenBetween: may some instruction on a path from `from` (exclusive) to `to` (exclusive) write addr?
+// writtenBetween: may some instruction on a path from `from` (exclusive) to `to` (exclusive) write addr?  Only
+// paths that do not execute `from` again count: from dominates to, so the last execution of from before to is
+// followed by a segment that avoids from's block — writes on longer paths (round an enclosing loop) happen before
+// that last execution and are already reflected in the value from produced.
 func (e *Fn) writtenBetween(from, to ssa.Instruction, addr ssa.Value) bool {
 	fb, tb := from.Block(), to.Block()
 	scan := func(ins []ssa.Instruction) bool {
@@ -335,31 +364,67 @@ func (e *Fn) writtenBetween(from, to ssa.Instruction, addr ssa.Value) bool {
 		}
 		return -1
 	}
-	inLoop := e.reachesStrict(tb, tb) // to's block lies on a cycle
-	if fb == tb && !inLoop {
+	if fb == tb && idx(fb, from) < idx(tb, to) {
 		return scan(fb.Instrs[idx(fb, from)+1 : idx(tb, to)])
 	}
-	if fb == tb && inLoop {
-		// conservatively scan the whole block and everything on cycles through it
-		if scan(fb.Instrs) {
-			return true
+	// forward from fb's successors and backward from tb's predecessors, never through fb
+	fwd := map[*ssa.BasicBlock]bool{}
+	var walkF func(b *ssa.BasicBlock)
+	walkF = func(b *ssa.BasicBlock) {
+		if b == fb || fwd[b] {
+			return
 		}
-	} else {
-		if scan(fb.Instrs[idx(fb, from)+1:]) || scan(tb.Instrs[:idx(tb, to)]) {
-			return true
-		}
-		if inLoop && scan(tb.Instrs) {
-			return true
+		fwd[b] = true
+		for _, s := range b.Succs {
+			walkF(s)
 		}
 	}
+	for _, s := range fb.Succs {
+		walkF(s)
+	}
+	bwd := map[*ssa.BasicBlock]bool{}
+	var walkB func(b *ssa.BasicBlock)
+	walkB = func(b *ssa.BasicBlock) {
+		if b == fb || bwd[b] {
+			return
+		}
+		bwd[b] = true
+		for _, p := range b.Preds {
+			walkB(p)
+		}
+	}
+	if tb != fb {
+		walkB(tb)
+	} else {
+		for _, p := range tb.Preds {
+			walkB(p)
+		}
+	}
+	if scan(fb.Instrs[idx(fb, from)+1:]) {
+		return true
+	}
+	if scan(tb.Instrs[:idx(tb, to)]) {
+		return true
+	}
 	for _, b := range e.F.Blocks {
-		if b == fb || b == tb {
+		if b == fb || !fwd[b] || !bwd[b] {
 			continue
 		}
-		if e.reachesStrict(fb, b) && e.reachesStrict(b, tb) {
-			if scan(b.Instrs) {
+		if b == tb {
+			// tb lies on a cycle that avoids fb: its tail can run before `to` runs again
+			onCycle := false
+			for _, s := range tb.Succs {
+				if s != fb && fwd[s] && bwd[s] {
+					onCycle = true
+				}
+			}
+			if onCycle && scan(tb.Instrs[idx(tb, to)+1:]) {
 				return true
 			}
+			continue
+		}
+		if scan(b.Instrs) {
+			return true
 		}
 	}
 	return false
